@@ -45,6 +45,14 @@ pub fn run_check(ctx: &Ctx) -> Outcome {
         "C12" => check_e1(ctx, Prop::C12, &mut out, 1500, 40000),
         "C14" => check_e1(ctx, Prop::C14, &mut out, 1000, 20000),
         "C15" => check_e1(ctx, Prop::C15, &mut out, 1500, 40000),
+        "C11" => check_tinylfu(ctx, crate::e7::E7Prop::C11, &mut out, 1500, 40000, "generated TinyLFU configurations (size, samples, false-positive ratio, key hasher) x operation sequences over increment / increment_hashed_key / increment_keys / increment_hashed_keys / try_reset / clear / estimate* / contains* / lt..eq with raw hashes from a small alphabet plus 0, u64::MAX, 1<<32, 1<<63 and random values; 30% of the cases use a single key (exact equality with the aged-count model); non-trivial = at least one reset happened and at least one counter > 1 was halved; distinct by FNV-64 of the serialised case"),
+        "C20" => check_sampled(ctx, crate::e7::E7Prop::C20, &mut out, 3000, 60000, "generated SampledLFU sequences (increment*, update*, remove*, clear, update_max_cost, fill_sample, room_left) over hashed keys from a small alphabet plus extremes and signed costs (mostly small, tail to +-2^40); non-trivial = an increment on an already tracked key was followed by remove or room_left; distinct by FNV-64 of the serialised case"),
+        "C13" => check_c13(ctx, &mut out, 1000, 25000),
+        "C16" => {
+            check_c16(ctx, &mut out, 1000, 25000);
+            check_tinylfu(ctx, crate::e7::E7Prop::C16, &mut out, 500, 10000, "");
+        }
+        "C17" => check_c17(ctx, &mut out, 600, 15000),
         other => out.inconclusive = Some(format!("no check registered for {other}")),
     }
     out
@@ -56,6 +64,32 @@ pub fn replay(prop: &str, engine: &str, case: &Value) -> Result<Option<Violation
             let p = prop_of(prop).ok_or_else(|| format!("unknown property {prop}"))?;
             let c: Case = serde_json::from_value(case.clone()).map_err(|e| e.to_string())?;
             Ok(exec_case(&c, p).violation)
+        }
+        "c13" => {
+            let c: crate::multi::C13Case = serde_json::from_value(case.clone()).map_err(|e| e.to_string())?;
+            Ok(exec_c13(&c).violation)
+        }
+        "c16" => {
+            let c: crate::multi::C16Case = serde_json::from_value(case.clone()).map_err(|e| e.to_string())?;
+            Ok(exec_c16(&c).violation)
+        }
+        "tinylfu" => {
+            let c: crate::e7::TCase = serde_json::from_value(case.clone()).map_err(|e| e.to_string())?;
+            let p = match prop {
+                "C05" => crate::e7::E7Prop::C05,
+                "C16" => crate::e7::E7Prop::C16,
+                _ => crate::e7::E7Prop::C11,
+            };
+            Ok(crate::e7::run_tinylfu(&c, p).violation)
+        }
+        "sampled" => {
+            let c: crate::e7::SCase = serde_json::from_value(case.clone()).map_err(|e| e.to_string())?;
+            let p = if prop == "C05" { crate::e7::E7Prop::C05 } else { crate::e7::E7Prop::C20 };
+            Ok(crate::e7::run_sampled(&c, p).violation)
+        }
+        "c17" => {
+            let c: Case = serde_json::from_value(case.clone()).map_err(|e| e.to_string())?;
+            Ok(exec_c17(&c).violation)
         }
         other => Err(format!("unknown engine {other}")),
     }
